@@ -166,7 +166,8 @@ pub fn random_cfg(rng: &mut impl Rng, profile: &str) -> Cfg {
         fp: rng.random_range(0..100) < 40,
         max_tx: *wpick(rng, &[(1, 0usize), (3, 1), (3, 2), (3, 3), (2, 4), (3, 10)]),
         user: "alice".to_string(),
-        password: "s3cret-pass".to_string(),
+        // sometimes a password that OpaqueString changes (NO-BREAK SPACE -> SPACE)
+        password: pick(rng, &["s3cret-pass", "s3cret-pass", "s3cret\u{00A0}pass"]).to_string(),
     }
 }
 
